@@ -210,7 +210,9 @@ Definition state_clauses (o : ostate) : list string :=
   ++ flat_map (fun e => if zassoc (snd (fst e)) (o_sup o) then [] else ["supply-sum:" +++ class_name (class_of (snd (fst e)))]) (o_bal o)
   (* every escrow account holds at least what its module records against it *)
   ++ flat_map (fun k => if oliab o (fst k) (snd k) <=? obal o (fst k) (snd k) then []
-                        else ["insolvent:" +++ macc_name (fst k) +++ ":" +++ class_name (class_of (snd k))])
+                        else ["insolvent:" +++ macc_name (fst k) +++ ":" +++ class_name (class_of (snd k))
+                              (* a shortfall of a few base units (a rounding step) is a different failure class than a lost payment *)
+                              +++ (if oliab o (fst k) (snd k) - obal o (fst k) (snd k) <=? 3 then ":rounding" else "")])
               (dedup2 (map (fun e => match e with (m, _, _, d, _) => (m, d) end) (o_rec o)))
   (* every share token is redeemable under the pool's own redemption rule.  Old rule (amount*(1-slashed)):
      supply(share) / (1 - slashed) <= staked  (one unit of rounding slack) *)
